@@ -40,10 +40,10 @@ LEVEL_NOTE = (
     "fparse(fmt b) = b for the module's constants (CPython guarantee float(str(x)) == x, nan by bit pattern of the canonical nan); "
     "model <-> source correspondence is sampled, not proved")
 TECHNIQUE = "Lean 4 proof (induction over modules / instruction lists with a placeholder invariant; compositional maximal-munch lemmas over the printer; lock-step simulation for behaviour) over a hand model + differential correspondence"
-RULE = ("modules: fixed corner corpus (every instruction kind/operator/type/constant class, forward references, 15 name-collision modules "
+RULE = ("modules: fixed corner corpus (every instruction kind/operator/type/constant class, forward references incl. one later-defined value in TWO operand slots of every two-operand instruction kind, 15 name-collision modules "
         "across functions, 7 blob types of equal size/different alignment in every type position, one module per finding), "
         "irgen modules under 6 configurations decorated with volatile flags, address initialisers, special constants, underscore names, "
-        "shuffled block order, C front-end modules plain and after mem2reg/CSE/clean; distinct = distinct module text; "
+        "shuffled block order, one value in both operand slots of binops/cjmps, C front-end modules plain and after mem2reg/CSE/clean; distinct = distinct module text; "
         "non-trivial = module with >= 1 function (all but none)")
 TRUSTED = [
     "hand models Model.IRText / Model.IRBuild of ppci/irutils/{writer,reader}.py and ppci/ir.py __str__/constructors, tied by differential run on every check",
@@ -90,6 +90,7 @@ def real_roundtrip(m):
     r["m2"] = m2
     try:
         r["id2"] = K.identity_walk(m2)
+        r["book2"] = K.bookkeeping(m2)
         r["s2"] = irser.serialize(m2)
         f = io.StringIO()
         print_module(m2, file=f, verify=False)
@@ -99,7 +100,7 @@ def real_roundtrip(m):
     return r
 
 
-def failure_kind(r, s1, id1=None):
+def failure_kind(r, s1, id1=None, book1="skip"):
     if r["stage"] != "ok":
         return f"{r['stage']}:{r['exc']}"
     if r["text2"] != r["text"]:
@@ -108,6 +109,9 @@ def failure_kind(r, s1, id1=None):
         return "structure-differs"
     if id1 is not None and r.get("id2") != id1:
         return "identity-differs"
+    if book1 is None and r.get("book2") is not None:
+        # the original has sane def-use information (and verifies), the re-read module does not
+        return "reread-bookkeeping:" + r["book2"]
     return None
 
 
@@ -138,6 +142,7 @@ def check(ctx):
         c["s1"] = irser.serialize(m)
         c["id1"] = K.identity_walk(m)
         c["verifies"] = K.ppci_verifies(m)
+        c["book1"] = K.bookkeeping(m)
         c["real"] = real_roundtrip(m)
         c["at"] = len(reqs)
         tab = K.float_table(m)
@@ -154,7 +159,7 @@ def check(ctx):
     for c in cases:
         g, r = c["gen"], c["real"]
         if (len(runs_of) < lim and g is not None and g.entries and out[c["at"] + 1] == "ok 1"
-                and failure_kind(r, c["s1"], c["id1"]) is None):
+                and failure_kind(r, c["s1"], c["id1"], c["book1"]) is None):
             runs = [(e, a) for e in g.entries if e.external_ok for a in K.irgen.gen_args(ctx.rng, e, 2)][:6]
             if runs:
                 runs_of[c["label"]] = runs
@@ -179,7 +184,7 @@ def check(ctx):
         ctx.count("in_fragment" if in_frag else "outside_fragment")
         for rs in reasons:
             ctx.count("reason_" + rs)
-        kind = failure_kind(r, s1, c["id1"])
+        kind = failure_kind(r, s1, c["id1"], c["book1"])
         ctx.count("real_" + (kind or "roundtrip-ok"))
         # what the Lean model of the CURRENT reader predicts for this text (None = the model does not cover it)
         if o_read.startswith("ok "):
